@@ -24,7 +24,9 @@ def rules(chk, db):
     chk.rule('NR', 'no narrowing of a decoded id / size / count in the table encoder', minimum=3)
     encrules.narrowing(chk, db, 'NR', {'ReadPayload', 'Read', 'WritePayload', 'Write', 'Size'})
     encrules.size_rules(chk, db)
-    from .. import rwrules
+    from .. import rwrules, ilrules
+    chk.rule('BS', 'BaseEncodingSize = 1 + payload width (the declared size of an integer-valued entry)', minimum=10)
+    ilrules.base_size(chk, db, 'BS')
     chk.rule('ST', 'stream transport primitives (tables are commonly persisted through streams): exact transfers, Ensure/Prepare without effect', minimum=6)
     chk.rule('SS', 'stream status mapping', minimum=2)
     rwrules.check_stream_class(chk, db, 'nop::StreamReader', 'reader', 'ST', 'SS')
